@@ -437,6 +437,23 @@ fn depth_bytes(fam: u64, n: usize) -> Vec<u8> {
             let u = list.len() - 1;
             list.push(op(Op::Comp(l, u)));
         }
+        3 => {
+            // comp (pair^n tower) (comp iden unit) : two frames of width 2^n (bounds arithmetic beyond usize)
+            list.push(op(Op::Unit));
+            list.push(op(Op::InjL(0)));
+            let mut l = 1;
+            for _ in 0..n {
+                list.push(op(Op::Pair(l, l)));
+                l = list.len() - 1;
+            }
+            list.push(op(Op::Iden));
+            let i = list.len() - 1;
+            list.push(op(Op::Unit));
+            let u = list.len() - 1;
+            list.push(op(Op::Comp(i, u)));
+            let c = list.len() - 1;
+            list.push(op(Op::Comp(l, c)));
+        }
         _ => {
             // comp (pair^n tower) unit : types double at every level (width 2^n)
             list.push(op(Op::Unit));
@@ -458,13 +475,14 @@ pub fn run(ctx: &Ctx) {
     let t = ctx.tier;
     // depth stress first (a crash is attributed through the progress hint)
     let depths = [100usize, 1_000, 10_000, 20_000, 40_000, 80_000, 200_000, 1_000_000];
-    ctx.run_sub("depth-stress", Plan::enumerate(2 * depths.len() as u64 + 6, 0.1), |_rng, case| {
+    ctx.run_sub("depth-stress", Plan::enumerate(2 * depths.len() as u64 + 12, 0.1), |_rng, case| {
         let (fam, d) = if (case.idx as usize) < 2 * depths.len() {
             (case.idx % 2, depths[(case.idx / 2) as usize])
         } else {
-            (2, [10usize, 30, 50, 62, 70, 200][(case.idx as usize - 2 * depths.len()) % 6])
+            let k = case.idx as usize - 2 * depths.len();
+            (2 + (k / 6) as u64, [10usize, 30, 62, 63, 64, 200][k % 6])
         };
-        let fname = ["deep-sum-unify", "deep-chain", "pair-tower"][fam as usize];
+        let fname = ["deep-sum-unify", "deep-chain", "pair-tower", "pair-tower-two-comps"][fam as usize];
         case.hint(&format!("family={} depth={}", fname, d));
         let p = depth_bytes(fam, d);
         case.desc = format!("family {} depth {} ({} bytes)", fname, d, p.len());
